@@ -421,7 +421,9 @@ def _run_interleave(case):
     tempfile.tempdir = tmp
 
     def gen(n):
-        return iter(corpus.extractor_for(n)(io.BytesIO(_docs[n]), SIMPATH + "/" + os.path.basename(n)))
+        def g():  # routing happens inside: an unsupported name is an outcome of the run, not a harness error
+            yield from corpus.extractor_for(n)(io.BytesIO(_docs[n]), SIMPATH + "/" + os.path.basename(n))
+        return g()
 
     def drain(g):
         out, exc = [], None
